@@ -151,3 +151,423 @@ Definition pad_nibble_set (p : pic) (buffer : list N) : bool :=
   Nat.even (p_int p + p_frac p) && match buffer with b :: _ => negb (hi b =? 0) | [] => false end.
 Definition sign_position_set (p : pic) (buffer : list N) : bool :=
   p_signed p && match buffer with b :: _ => negb (lo b =? 0) | [] => false end.
+
+(* ======================================================================================
+   ADDITIONS: the text branch of estruct.unpack for EVERY picture the decoder-side scanner
+   accepts, the whole DISPLAY branch composed with the scanner, TextUnpacker.value,
+   EBCDIC.value's conversion step and Struct.value.  Nothing above this line is changed.
+
+   estruct.unpack, USAGE DISPLAY, picture not zoned decimal:
+       text = buffer.decode("CP037")
+       if not re.match(representation.pattern, text, re.DOTALL): raise ValueError
+       return (text,)
+   Representation.pattern builds a regular expression STRING from the element list, one
+   element after the other (regexp += string extends a list of characters; the join gives the
+   concatenation):
+       sign     S (and s) -> the six characters  [ +-]?   ; every other character of the sign
+                text is copied: - D B C R are literals, and + is copied too, where it is the
+                regular-expression QUANTIFIER "one or more of what precedes"
+       char     $ -> \$   * -> \*   B -> \s   ; comma and slash are copied (literals)
+       decimal  the full stop -> \.   ; V -> nothing
+       digit    A -> \w   X -> .   Z, 9, 0 -> \d   P -> nothing ; anything else is copied
+   re.match anchors the expression at the start of the text only: characters after the match
+   are not looked at (surplus bytes are accepted and returned); a text too short to match is
+   refused.  What CPython's parser (3.11 and later) does with the copied + :
+       atom +           one or more, greedy (backtracks)
+       atom + +         one or more, possessive (never gives a character back)
+       [ +-]? +      the optional sign made possessive
+       a + with nothing before it, or a third consecutive quantifier: re.error
+       (class name "error", wire code 7, the same code as struct.error).
+   The classes \d \w \s are the str (Unicode) classes.  \d is category Nd (Model/Picture.v,
+   table from T1); \w and \s are spelled out below for code points under 256, which is
+   everything the CP037 table yields, \s also for the rest of Unicode.
+   ====================================================================================== *)
+Require Import SR.Model.Picture SR.Gen.ConversionParams.
+Open Scope N_scope.
+
+Definition cp_in_ranges (c : N) (rs : list (N * N)) : bool :=
+  existsb (fun r => (fst r <=? c) && (c <=? snd r)) rs.
+
+(* \s on str, and str.isspace / Py_UNICODE_ISSPACE: the same 29 code points *)
+Definition re_space (c : N) : bool :=
+  cp_in_ranges c [(9, 13); (28, 32); (133, 133); (160, 160); (5760, 5760); (8192, 8202);
+               (8232, 8233); (8239, 8239); (8287, 8287); (12288, 12288)].
+(* \w on str = isalnum or underscore; exact below 256 (false from 256 on: not modelled) *)
+Definition re_word (c : N) : bool :=
+  cp_in_ranges c [(48, 57); (65, 90); (95, 95); (97, 122); (170, 170); (178, 179); (181, 181);
+               (185, 186); (188, 190); (192, 214); (216, 246); (248, 255)].
+
+(* one atom of the expression: what a single text character is tested against *)
+Inductive re_atom := ALit (c : N) | ADigit | AWord | ASpace | AAny | ASign.
+
+Definition atom_ok (a : re_atom) (c : N) : bool :=
+  match a with
+  | ALit x => c =? x
+  | ADigit => is_nd c                              (* \d *)
+  | AWord => re_word c                             (* \w *)
+  | ASpace => re_space c                           (* \s *)
+  | AAny => text_dotall || negb (c =? 10)          (* .  under the flag the source passes *)
+  | ASign => Picture.mem c [32; 43; 45]            (* [ +-] *)
+  end.
+
+(* the lexemes of the pattern string, in order *)
+Inductive rtok := RAtom (a : re_atom) | ROptSign | RPlus.
+
+Definition sign_tok (c : N) : rtok :=
+  if (c =? 83) || (c =? 115) then ROptSign else if c =? 43 then RPlus else RAtom (ALit c).
+Definition char_tok (c : N) : rtok := if c =? 66 then RAtom ASpace else RAtom (ALit c).
+Definition digit_toks (c : N) : list rtok :=
+  if c =? 65 then [RAtom AWord] else if c =? 88 then [RAtom AAny]
+  else if (c =? 90) || (c =? 57) || (c =? 48) then [RAtom ADigit]
+  else if c =? 80 then [] else [RAtom (ALit c)].
+
+Definition elt_toks (k : kind) (t : list N) : list rtok :=
+  match k with
+  | KSign => map sign_tok t
+  | KChar => map char_tok t
+  | KDecimal => if Picture.list_N_eqb t [46] then [RAtom (ALit 46)] else []
+  | KDigit => flat_map digit_toks t
+  end.
+
+(* Representation.pattern; an element without text reaches the final else: DesignError *)
+Fixpoint text_pattern (es : list elt) : res (list rtok) :=
+  match es with
+  | [] => Ok []
+  | E k t :: r =>
+      match t with
+      | [] => Err DesignError
+      | _ :: _ => match text_pattern r with Ok rest => Ok (elt_toks k t ++ rest) | Err e => Err e end
+      end
+  end.
+
+(* the characters of the pattern string (for reading; the matcher works on the lexemes) *)
+Definition atom_text (a : re_atom) : list N :=
+  match a with
+  | ALit c => if (c =? 36) || (c =? 42) || (c =? 46) then [92; c] else [c]
+  | ADigit => [92; 100] | AWord => [92; 119] | ASpace => [92; 115] | AAny => [46]
+  | ASign => [91; 32; 43; 45; 93]
+  end.
+Definition rtok_text (t : rtok) : list N :=
+  match t with RAtom a => atom_text a | ROptSign => [91; 32; 43; 45; 93; 63] | RPlus => [43] end.
+Definition pattern_string (ts : list rtok) : list N := flat_map rtok_text ts.
+
+(* the parser: atoms with their quantifier *)
+Inductive quant := Q1 | QOpt | QPlus | QOptPoss | QPlusPoss.
+
+Fixpoint re_compile (ts : list rtok) : res (list (re_atom * quant)) :=
+  let cons_ok (i : re_atom * quant) (r : res (list (re_atom * quant))) :=
+    match r with Ok l => Ok (i :: l) | Err e => Err e end in
+  match ts with
+  | [] => Ok []
+  | RPlus :: _ => Err StructError                          (* nothing to repeat / multiple repeat *)
+  | RAtom a :: r =>
+      match r with
+      | RPlus :: r1 =>
+          match r1 with
+          | RPlus :: r2 => cons_ok (a, QPlusPoss) (re_compile r2)
+          | _ => cons_ok (a, QPlus) (re_compile r1)
+          end
+      | _ => cons_ok (a, Q1) (re_compile r)
+      end
+  | ROptSign :: r =>
+      match r with
+      | RPlus :: r1 => cons_ok (ASign, QOptPoss) (re_compile r1)
+      | _ => cons_ok (ASign, QOpt) (re_compile r)
+      end
+  end.
+
+(* re.match: is there a match starting at the first character (the text may go on after it) *)
+Fixpoint re_match (items : list (re_atom * quant)) (text : list N) {struct items} : bool :=
+  match items with
+  | [] => true
+  | (a, q) :: r =>
+      match q with
+      | Q1 => match text with c :: t => atom_ok a c && re_match r t | [] => false end
+      | QOpt => (match text with c :: t => atom_ok a c && re_match r t | [] => false end) || re_match r text
+      | QOptPoss =>
+          match text with
+          | c :: t => if atom_ok a c then re_match r t else re_match r text
+          | [] => re_match r text
+          end
+      | QPlus =>
+          (fix plus (tx : list N) : bool :=
+             match tx with c :: t => atom_ok a c && (plus t || re_match r t) | [] => false end) text
+      | QPlusPoss =>
+          let (run, rest) := span (atom_ok a) text in
+          match run with [] => false | _ :: _ => re_match r rest end
+      end
+  end.
+
+(* the text branch, given the element list of the picture *)
+Definition unpack_display_text (es : list elt) (buffer : list N) : res pyval :=
+  let text := map text_decode buffer in
+  match text_pattern es with
+  | Err e => Err e
+  | Ok ts =>
+      match re_compile ts with
+      | Err e => Err e
+      | Ok items => if re_match items text then Ok (VStr text) else Err ValueError
+      end
+  end.
+
+(* the abstract picture the numeric branches use: they read len(digit_groups[1]) and [3] only *)
+Definition pic_of_parsed (r : parsed) : pic :=
+  mkpic (negb (Picture.list_N_eqb (g_sign (p_groups r)) []))
+        (length (g_int (p_groups r))) (length (g_frac (p_groups r))).
+
+(* estruct.unpack(clause with this usage and this PICTURE string, buffer).  None = the scanner ran
+   out of fuel (never: Proofs/PictureP.v).  DISPLAY: zoned decimal when zoned_decimal says so,
+   text otherwise; the other usages as before, on the digit groups of the scanned picture. *)
+Definition unpack_any (usage : N) (s : list N) (buffer : list N) : option (res pyval) :=
+  match dec_parse s with
+  | None => None
+  | Some (Err e) => Some (Err e)
+  | Some (Ok r) =>
+      Some (if mem usage unpack_display
+            then (if p_zoned r then unpack_zoned (pic_of_parsed r) buffer
+                  else unpack_display_text (p_elems r) buffer)
+            else unpack usage (pic_of_parsed r) buffer)
+  end.
+
+(* ---- which characters each position of a picture admits (the statement of C02_text_any_picture) ----
+   One class per lexeme:  A: \w   X: any character   9 Z 0: a decimal digit   B: white space
+   $ , / * . - D B(of DB) C R: that character itself   S: space, plus or minus.
+   The + symbol has no class of its own in the implementation (it is a quantifier there);
+   COBOL puts a plus or a minus sign in that position, which is what [sym_class] says. *)
+Definition sym_class (t : rtok) (c : N) : bool :=
+  match t with
+  | RAtom a => atom_ok a c
+  | ROptSign => atom_ok ASign c
+  | RPlus => (c =? 43) || (c =? 45)
+  end.
+Fixpoint fits_classes (ts : list rtok) (text : list N) : bool :=
+  match ts, text with
+  | [], [] => true
+  | t :: ts', c :: text' => sym_class t c && fits_classes ts' text'
+  | _, _ => false
+  end.
+Definition is_plus (t : rtok) : bool := match t with RPlus => true | _ => false end.
+Definition is_optsign (t : rtok) : bool := match t with ROptSign => true | _ => false end.
+Definition has_plus (ts : list rtok) : bool := existsb is_plus ts.
+Definition has_optsign (ts : list rtok) : bool := existsb is_optsign ts.
+
+(* ---- Decimal(str), the C implementation CPython ships ----
+   numeric_as_ascii: white space (Py_UNICODE_ISSPACE) is stripped at both ends, every underscore
+   is dropped, ASCII 1..127 is kept, other white space becomes a blank, other decimal digits
+   (category Nd) become ASCII digits, anything else (also NUL) makes the whole string invalid.
+   mpd_qset_string: optional sign; NaN / sNaN / Inf / Infinity in any case (NOT modelled: None);
+   else digits with at most one full stop and at least one digit, optionally e or E, an optional
+   sign and at least one digit.  The conversion is exact (no context rounding).
+   Exponents of more than 15 digits are not modelled (None).  Everything else: InvalidOperation. *)
+Fixpoint py_lstrip (s : list N) : list N :=
+  match s with c :: t => if re_space c then py_lstrip t else s | [] => [] end.
+Definition py_strip (s : list N) : list N := rev (py_lstrip (rev (py_lstrip s))).
+
+Fixpoint dec_ascii (s : list N) : option (list N) :=
+  match s with
+  | [] => Some []
+  | c :: t =>
+      if c =? 95 then dec_ascii t
+      else
+        let keep (x : N) := match dec_ascii t with Some r => Some (x :: r) | None => None end in
+        if (0 <? c) && (c <=? 127) then keep c
+        else if re_space c then keep 32
+        else if is_nd c then keep (48 + nd_val c)
+        else None
+  end.
+
+Definition lower_ascii (c : N) : N := if (65 <=? c) && (c <=? 90) then c + 32 else c.
+Fixpoint starts_ci (prefix s : list N) : bool :=
+  match prefix, s with
+  | [], _ => true
+  | p :: ps, c :: t => (lower_ascii c =? p) && starts_ci ps t
+  | _ :: _, [] => false
+  end.
+Definition is_special (s : list N) : bool :=
+  starts_ci [110; 97; 110] s || starts_ci [115; 110; 97; 110] s || starts_ci [105; 110; 102] s.
+
+Definition digit_values (s : list N) : list N := map (fun c => c - 48) s.
+
+(* the exponent part after the indicator: [sign] digits+ *)
+Definition exp_value (s : list N) : option (res Z) :=
+  let (negative, ds) := match s with
+                        | c :: t => if c =? 43 then (false, t) else if c =? 45 then (true, t) else (false, s)
+                        | [] => (false, s)
+                        end in
+  match ds with
+  | [] => Some (Err DecimalInvalid)
+  | _ :: _ =>
+      if negb (forallb ascii_digit ds) then Some (Err DecimalInvalid)
+      else if (15 <? length ds)%nat then None
+      else let v := Z.of_N (val (digit_values ds)) in Some (Ok (if negative then (- v)%Z else v))
+  end.
+
+(* scan_dpoint_exp on the text after the sign *)
+Definition numeric_value (negative : bool) (s : list N) : option (res pyval) :=
+  let (ip, r1) := span ascii_digit s in
+  let (fp, r2) := match r1 with
+                  | c :: t => if c =? 46 then span ascii_digit t else ([], r1)
+                  | [] => ([], r1)
+                  end in
+  match ip ++ fp with
+  | [] => Some (Err DecimalInvalid)
+  | _ :: _ =>
+      let coefficient := val (digit_values (ip ++ fp)) in
+      let scale := (- Z.of_nat (length fp))%Z in
+      match r2 with
+      | [] => Some (Ok (VDec (mkdec negative coefficient scale)))
+      | c :: t =>
+          if (c =? 101) || (c =? 69) then
+            match exp_value t with
+            | None => None
+            | Some (Err e) => Some (Err e)
+            | Some (Ok x) => Some (Ok (VDec (mkdec negative coefficient (scale + x)%Z)))
+            end
+          else Some (Err DecimalInvalid)
+      end
+  end.
+
+Definition decimal_of_text (text : list N) : option (res pyval) :=
+  match dec_ascii (py_strip text) with
+  | None => Some (Err DecimalInvalid)
+  | Some s =>
+      let (negative, body) := match s with
+                              | c :: t => if c =? 43 then (false, t) else if c =? 45 then (true, t) else (false, s)
+                              | [] => (false, s)
+                              end in
+      if is_special body then None else numeric_value negative body
+  end.
+
+(* ---- int(str): strip, optional sign, digits with single underscores between digits; other
+   decimal digits count as their ASCII digit, other white space inside is an error.  ValueError.
+   (The 4300-digit limit is out of reach of a field.) ---- *)
+Fixpoint int_digit_run (s : list N) (acc : N) (prev_digit : bool) : option N :=
+  match s with
+  | [] => if prev_digit then Some acc else None
+  | c :: t =>
+      if c =? 95 then (if prev_digit then int_digit_run t acc false else None)
+      else if is_nd c then int_digit_run t (10 * acc + nd_val c) true
+      else None
+  end.
+Definition int_of_text (text : list N) : res pyval :=
+  let s := py_strip text in
+  let (negative, body) := match s with
+                          | c :: t => if c =? 43 then (false, t) else if c =? 45 then (true, t) else (false, s)
+                          | [] => (false, s)
+                          end in
+  match int_digit_run body 0 false with
+  | Some v => Ok (VInt (if negative then (- Z.of_N v)%Z else Z.of_N v))
+  | None => Err ValueError
+  end.
+
+(* ---- CONVERSION (table regenerated from the source: Gen/ConversionParams.v).
+   Keys: 0 no "conversion" (None), 1 null, 2 bool, 3 integer, 4 number, 5 string, 6 decimal,
+   any other number: a string that is not a key.  Entries: 0 identity, 1 None, 2 bool, 3 int,
+   4 float, 5 str, 6 Decimal. ---- *)
+Definition conversion_entry (key : Z) : option Z :=
+  match find (fun kv => Z.eqb (fst kv) key) conversion_table with
+  | Some kv => Some (snd kv)
+  | None => None
+  end.
+
+(* the entry applied to a str.  None = not modelled: the entries whose result is None, a bool
+   or a float. *)
+Definition convert_text (entry : Z) (text : list N) : option (res pyval) :=
+  if (entry =? 0)%Z || (entry =? 5)%Z then Some (Ok (VStr text))
+  else if (entry =? 6)%Z then decimal_of_text text
+  else if (entry =? 3)%Z then Some (int_of_text text)
+  else None.
+
+(* TextUnpacker.value(schema, instance): CONVERSION.get(attributes.get("conversion", type), identity)
+   applied to the str slice the location hands over.  [key] = the conversion keyword when there is
+   one, else the type keyword. *)
+Definition text_unpacker_value (key : Z) (text : list N) : option (res pyval) :=
+  convert_text (match conversion_entry key with Some e => e | None => 0%Z end) text.
+
+(* AtomicLocation.value: the slice instance[start : end], clipped as Python slices are *)
+Definition py_slice (start width : nat) (record : list N) : list N := firstn width (skipn start record).
+
+(* EBCDIC.value: CONVERSION[attributes.get("conversion")] (KeyError for an unknown key) applied to
+   what estruct.unpack returned.  Modelled: identity on everything, Decimal of a Decimal / an int /
+   a str, int of an int / a str, str of a str.  The rest: None. *)
+Definition convert_value (entry : Z) (v : pyval) : option (res pyval) :=
+  if (entry =? 0)%Z then Some (Ok v)
+  else match v with
+       | VStr t => convert_text entry t
+       | VDec d => if (entry =? 6)%Z then Some (Ok v) else None
+       | VInt z => if (entry =? 3)%Z then Some (Ok v)
+                   else if (entry =? 6)%Z then Some (Ok (VDec (mkdec (z <? 0)%Z (Z.to_N (Z.abs z)) 0))) else None
+       end.
+Definition ebcdic_unpacker_value (key : Z) (usage : N) (s : list N) (buffer : list N) : option (res pyval) :=
+  match conversion_entry key with
+  | None => Some (Err KeyError)
+  | Some entry =>
+      match unpack_any usage s buffer with
+      | None => None
+      | Some (Err e) => Some (Err e)
+      | Some (Ok v) => convert_value entry v
+      end
+  end.
+
+(* ---- Struct.value: struct.unpack(struct_format, bytes) in NATIVE mode (no prefix character), then
+   CONVERSION[attributes.get("conversion")].  Modelled: h / i / q (2 / 4 / 8 bytes, the byte order of
+   the machine: [little] = (sys.byteorder == "little"); a buffer of another length is struct.error)
+   and <size>s (the bytes unchanged; a buffer of another length is struct.error).  Left out: the
+   float formats f and d (None), every conversion of a bytes object except identity and Decimal
+   (TypeError: Decimal does not take bytes), every conversion of an int except identity, int and
+   Decimal. ---- *)
+Inductive sval := SV (v : pyval) | SBytes (b : list N).
+
+Definition struct_value (little : bool) (key : Z) (usage : N) (s : list N) (buffer : list N) : option (res sval) :=
+  match dec_parse s with
+  | None => None
+  | Some (Err e) => Some (Err e)
+  | Some (Ok r) =>
+      let p := pic_of_parsed r in
+      match conversion_entry key with
+      | None =>
+          (* struct_format is evaluated first: its errors win over the KeyError *)
+          if mem usage struct_display then Some (Err KeyError)
+          else if mem usage struct_packed then Some (Err ValueError)
+          else if mem usage struct_float4 || mem usage struct_float8 then Some (Err KeyError)
+          else if mem usage struct_binary then
+            match bin_width sbin_t1 sbin_t2 sbin_t3 sbin_t3_inclusive sbin_counts_fraction p with
+            | Some _ => Some (Err KeyError) | None => Some (Err ValueError) end
+          else Some (Err RuntimeError)
+      | Some entry =>
+          if mem usage struct_display then
+            if (length buffer =? p_size r)%nat then
+              (if (entry =? 0)%Z then Some (Ok (SBytes buffer))
+               else if (entry =? 6)%Z then Some (Err TypeError) else None)
+            else Some (Err StructError)
+          else if mem usage struct_packed then Some (Err ValueError)
+          else if mem usage struct_float4 || mem usage struct_float8 then None
+          else if mem usage struct_binary then
+            match bin_width sbin_t1 sbin_t2 sbin_t3 sbin_t3_inclusive sbin_counts_fraction p with
+            | None => Some (Err ValueError)
+            | Some w =>
+                if (length buffer =? w)%nat then
+                  match convert_value entry (VInt (signed_be w (if little then rev buffer else buffer))) with
+                  | None => None
+                  | Some (Ok v) => Some (Ok (SV v))
+                  | Some (Err e) => Some (Err e)
+                  end
+                else Some (Err StructError)
+            end
+          else Some (Err RuntimeError)
+      end
+  end.
+
+(* ---- specification side of C02_textunpacker_numeric: the decimal text of a value, as a text
+   field holds it: blanks, an optional sign (0 none, 1 plus, 2 minus), the integer digits, and -
+   when [point] - a full stop and the fraction digits, blanks.  Digits are the values 0..9. ---- *)
+Definition sign_text (sgn : N) : list N := if sgn =? 1 then [43] else if sgn =? 2 then [45] else [].
+Definition digit_chars (ds : list N) : list N := map (fun d => 48 + d) ds.
+Definition decimal_text (sgn : N) (ids fds : list N) (point : bool) (lp rp : nat) : list N :=
+  repeat 32 lp ++ sign_text sgn ++ digit_chars ids
+  ++ (if point then 46 :: digit_chars fds else []) ++ repeat 32 rp.
+Definition decimal_text_ok (ids fds : list N) (point : bool) : bool :=
+  forallb (fun d => d <? 10) ids && forallb (fun d => d <? 10) fds
+  && negb (Nat.eqb (length ids + length fds) 0) && (point || Nat.eqb (length fds) 0).
+Definition decimal_text_value (sgn : N) (ids fds : list N) : dec :=
+  mkdec (sgn =? 2) (val (ids ++ fds)) (- Z.of_nat (length fds)).
